@@ -220,16 +220,45 @@ static Wire geom_fresh_refinalize(size_t i) {     // load entry i into a fresh o
     return geom_obs(st2,g);
 }
 static Wire run_geom(Reader& r) {
-    Geometry g; bool lastfin = false;
+    Geometry g; bool lastfin = false; size_t curentry = (size_t)-1;
     const size_t nops = r.n(); Wire out;
     for (size_t q=0;q<nops;++q) {
         const size_t o = r.n(), i = r.n();
         Wire ob;
-        if (o==0) { const ll st = geom_do(g,i); lastfin = (st==0 && catalog().G.at(i)[0]=="G"); ob = geom_obs(st,g); }
+        if (o==0) { const ll st = geom_do(g,i); lastfin = (st==0 && catalog().G.at(i)[0]=="G"); curentry = lastfin ? i : (size_t)-1; ob = geom_obs(st,g); }
         else if (o==1) ob = geom_obs((g.meshes().empty() || g.domains().empty() || !g.has_conductivities()) ? -1 : headmat_fp(g),g);
         else if (o==3) {   // a second finalize() on an object whose last load reached finalize
             if (!lastfin) ob = geom_obs(-1,g);
             else { const ll st = guarded_om([&]() { g.finalize(); }); ob = geom_obs(st,g); }
+        }
+        else if (o==4) {   // programmatic construction on the object as it is: vertices, one mesh, finalize (result not observed)
+            guarded_om([&]() {
+                Vertices vs; const double c[6][3] = { {7,0,0},{-7,0,0},{0,7,0},{0,-7,0},{0,0,7},{0,0,-7} };
+                for (const auto& x : c) vs.push_back(Vertex(x[0],x[1],x[2]));
+                const IndexMap im = g.add_vertices(vs);
+                Mesh& m = g.add_mesh("polluter");
+                m.reference_vertices(im);
+                const unsigned t[8][3] = { {0,2,4},{2,1,4},{1,3,4},{3,0,4},{2,0,5},{1,2,5},{3,1,5},{0,3,5} };
+                for (const auto& x : t) m.add_triangle(TriangleIndices(x[0],x[1],x[2]),im);
+                m.update(true);
+                g.finalize();
+            });
+            lastfin = false; curentry = (size_t)-1;
+            ob = Wire{ -3 };
+        }
+        else if (o==5) {   // set_conductivity in place from the conductivity file of entry i (same geometry file), then finalize()
+            const auto& t = catalog().G.at(i);
+            if (!lastfin || curentry==(size_t)-1 || t[0]!="G" || t.size()<3 || t[2]=="-" || catalog().G.at(curentry)[1]!=t[1]) ob = geom_obs(-1,g);
+            else {
+                const ll st = guarded_om([&]() {
+                    std::ifstream in(t[2].c_str()); std::string line; std::map<std::string,double> cond;
+                    while (std::getline(in,line)) { if (line.empty() || line[0]=='#') continue; std::istringstream ls(line); std::string n; double v; if (ls >> n >> v) cond[n] = v; }
+                    for (auto& d : g.domains()) d.set_conductivity(cond.at(d.name()));
+                    g.finalize();
+                });
+                if (st==0) curentry = i;
+                ob = geom_obs(st,g);
+            }
         }
         else {      // another assembly on the same geometry: one dipole at the centroid of the vertices
             guarded_om([&]() {
